@@ -7,6 +7,7 @@ import (
 	"encoding/hex"
 	"io"
 	"io/ioutil"
+	"strings"
 	"sync"
 	"sync/atomic"
 	"time"
@@ -38,6 +39,27 @@ type Recorder struct {
 	Op    int
 	Name  string
 	Delay *int32 // when set: the number of writes still to be slowed down (a slow link), shared by the stores of one operation
+	// Jitter delays every attribute read, existence test and touch (outside any lock), so that calls of
+	// concurrent goroutines overlap instead of being served strictly one after the other
+	Jitter time.Duration
+	// writes to keys containing SlowSubstr take SlowFor longer
+	SlowSubstr string
+	SlowFor    time.Duration
+}
+
+func (r *Recorder) Touch(ctx context.Context, k string) error {
+	time.Sleep(r.Jitter)
+	return r.Store.Touch(ctx, k)
+}
+
+func (r *Recorder) GetAttr(ctx context.Context, k string) (storage.Attributes, error) {
+	time.Sleep(r.Jitter)
+	return r.Store.GetAttr(ctx, k)
+}
+
+func (r *Recorder) Has(ctx context.Context, k string) (bool, error) {
+	time.Sleep(r.Jitter)
+	return r.Store.Has(ctx, k)
 }
 
 func (r *Recorder) Put(ctx context.Context, k string, rd io.Reader, noOverwrite bool) error {
@@ -48,6 +70,9 @@ func (r *Recorder) Put(ctx context.Context, k string, rd io.Reader, noOverwrite 
 	sum := sha256.Sum256(b)
 	if r.Delay != nil && atomic.AddInt32(r.Delay, -1) >= 0 {
 		time.Sleep(1200 * time.Millisecond)
+	}
+	if r.SlowSubstr != "" && strings.Contains(k, r.SlowSubstr) {
+		time.Sleep(r.SlowFor)
 	}
 	r.Log.mu.Lock()
 	err = r.Store.Put(ctx, k, bytes.NewReader(b), noOverwrite)
